@@ -2,7 +2,9 @@ package main
 
 // C06 end to end: a real logic.Group with HTTP-TS, HLS and RTSP enabled.
 //
-//	c06.e2e <fragMs>:<hls 0|1>:<rtsp 0|1> <ev>;<ev>;...
+//	c06.e2e <fragMs>:<hls 0|1>:<rtsp 0|1>[:<wk 0|1>:<tsgop>] <ev>;<ev>;...
+//
+// wk = RtspConfig.OutWaitKeyFrameFlag, tsgop = HttptsConfig.GopNum (both 0 when left out).
 //
 // events
 //
@@ -99,13 +101,18 @@ func init() {
 		var cfg logic.Config
 		cfg.HttptsConfig.Enable = true
 		cfg.HttptsConfig.GopNum = 0
+		wk := false
+		if len(cf) >= 5 {
+			wk = boolTok(cf[3])
+			cfg.HttptsConfig.GopNum = intTok(cf[4])
+		}
 		if boolTok(cf[1]) {
 			cfg.HlsConfig.Enable = true
 			cfg.HlsConfig.MuxerConfig = hls.MuxerConfig{OutPath: c10Root, FragmentDurationMs: intTok(cf[0]), FragmentNum: 1000, DeleteThreshold: 1000, CleanupMode: 0}
 		}
 		if boolTok(cf[2]) {
 			cfg.RtspConfig.Enable = true
-			cfg.RtspConfig.OutWaitKeyFrameFlag = false
+			cfg.RtspConfig.OutWaitKeyFrameFlag = wk
 		}
 		group := logic.NewGroup("live", "s", &cfg, logic.GroupOption{}, nopGroupObserver{})
 		pubConn := newFakeConn(nil)
